@@ -37,8 +37,9 @@ def read_via(kind, data, path, read_evlrs, chunked):
         raise ValueError(kind)
     with laspy.open(src, read_evlrs=read_evlrs) as rd:
         if chunked:
-            parts = [p.array.tobytes() for p in rd.chunk_iterator(3)]
+            kept = [p for p in rd.chunk_iterator(3)]      # every piece is kept; looked at only after the last one was read
             las = rd.read()          # remaining (none) + deferred EVLRs
+            parts = [p.array.tobytes() for p in kept]
             pts = b"".join(parts) + las.points.array.tobytes()
             out = c01.canon_read(las).rsplit(" # ", 2)
             n = len(pts) // max(las.header.point_format.size, 1)
